@@ -62,6 +62,7 @@ fn main() -> ExitCode {
     drv::cleanup_scratch();
     match res {
         Ok(ev) => {
+            report.confirm_slow();
             ev.write(&report);
             let n = report.finish();
             drv::cleanup_scratch();
